@@ -22,7 +22,7 @@ use sciparse::{
 };
 
 use super::infra::Ctx;
-use crate::{acc, accm, accs, mutx};
+use crate::{acc, accd, accm, accs, mutx};
 
 fn infos_bytes(s: &[InfoFieldView]) -> &[u8] {
     unsafe { std::slice::from_raw_parts(s.as_ptr() as *const u8, s.len() * 8) }
@@ -50,7 +50,7 @@ pub fn acc_info(c: &mut Ctx, f: &InfoFieldView) {
     acc!(c, "info.segment_id", f.segment_id());
     acc!(c, "info.timestamp", f.timestamp());
     accs!(c, "info.as_slice", f.as_slice());
-    acc!(c, "info.debug", format!("{f:?}"));
+    accd!(c, "info.debug", format!("{f:?}"));
 }
 pub fn acc_hop(c: &mut Ctx, h: &HopFieldView, i: &InfoFieldView) {
     acc!(c, "hop.flags", h.flags());
@@ -64,7 +64,7 @@ pub fn acc_hop(c: &mut Ctx, h: &HopFieldView, i: &InfoFieldView) {
     acc!(c, "hop.egress_scmp_alert", h.egress_scmp_alert(i));
     acc!(c, "hop.expiry_timestamp", h.expiry_timestamp(i));
     accs!(c, "hop.as_slice", h.as_slice());
-    acc!(c, "hop.debug", format!("{h:?}"));
+    accd!(c, "hop.debug", format!("{h:?}"));
 }
 pub fn mut_info(c: &mut Ctx, f: &mut InfoFieldView, k: usize) -> Option<&'static str> {
     match k {
@@ -144,10 +144,10 @@ pub fn acc_std(c: &mut Ctx, p: &StandardPathView) {
             acc_hop(c, hl, il);
         }
     }
-    acc!(c, "std.debug", format!("{p:?}").len());
-    acc!(c, "std.display", format!("{p}").len());
-    acc!(c, "std.to_boxed", p.to_boxed().as_slice().len());
-    acc!(c, "std.eq", p == p);
+    accd!(c, "std.debug", format!("{p:?}").len());
+    accd!(c, "std.display", format!("{p}").len());
+    accd!(c, "std.to_boxed", p.to_boxed().as_slice().len());
+    accd!(c, "std.eq", p == p);
     let r = ScionDpPathViewRef::Standard(p);
     acc_pathref(c, &r);
 }
@@ -158,10 +158,10 @@ fn acc_pathref(c: &mut Ctx, r: &ScionDpPathViewRef) {
     acc!(c, "pathref.current_egress_interface", r.current_egress_interface());
     acc!(c, "pathref.last_ingress_interface", r.last_ingress_interface());
     acc!(c, "pathref.current_ingress_interface", r.current_ingress_interface());
-    acc!(c, "pathref.to_model", r.to_model());
-    acc!(c, "pathref.to_owned_view", r.to_owned_view());
-    acc!(c, "pathref.display", format!("{r}").len());
-    acc!(c, "pathref.debug", format!("{r:?}").len());
+    accd!(c, "pathref.to_model", r.to_model());
+    accd!(c, "pathref.to_owned_view", r.to_owned_view());
+    accd!(c, "pathref.display", format!("{r}").len());
+    accd!(c, "pathref.debug", format!("{r:?}").len());
 }
 /// the `&mut` accessors (return mutable sub-views): range + rewrite
 pub fn accm_std(c: &mut Ctx, p: &mut StandardPathView) {
@@ -221,10 +221,10 @@ pub fn acc_onehop(c: &mut Ctx, p: &OneHopPathView) {
     accs!(c, "onehop.hop_fields[0]", p.hop_fields()[0].as_slice());
     accs!(c, "onehop.hop_fields[1]", p.hop_fields()[1].as_slice());
     acc!(c, "onehop.expiration", p.expiration());
-    acc!(c, "onehop.debug", format!("{p:?}").len());
-    acc!(c, "onehop.display", format!("{p}").len());
-    acc!(c, "onehop.clone_eq", p.clone() == *p);
-    acc!(c, "onehop.to_boxed", p.to_boxed().as_slice().len());
+    accd!(c, "onehop.debug", format!("{p:?}").len());
+    accd!(c, "onehop.display", format!("{p}").len());
+    accd!(c, "onehop.clone_eq", p.clone() == *p);
+    accd!(c, "onehop.to_boxed", p.to_boxed().as_slice().len());
     let i = p.info_field();
     acc_info(c, i);
     let [h1, h2] = p.hop_fields();
@@ -322,8 +322,8 @@ pub fn acc_header(c: &mut Ctx, h: &ScionHeaderView) {
     acc!(c, "hdr.dst_host_addr", h.dst_host_addr());
     acc!(c, "hdr.src_host_addr", h.src_host_addr());
     acc!(c, "hdr.src_host_addr_range", h.src_host_addr_range());
-    acc!(c, "hdr.debug", format!("{h:?}").len());
-    acc!(c, "hdr.to_boxed", h.to_boxed().as_slice().len());
+    accd!(c, "hdr.debug", format!("{h:?}").len());
+    accd!(c, "hdr.to_boxed", h.to_boxed().as_slice().len());
     if c.at("hdr.path") {
         match vpc::catch(|| h.path()) {
             Ok(r) => acc_path(c, r, false),
@@ -395,8 +395,8 @@ pub fn acc_udp(c: &mut Ctx, u: &UdpDatagramView) {
     acc!(c, "udp.length", u.length());
     acc!(c, "udp.checksum", u.checksum());
     accs!(c, "udp.payload", u.payload());
-    acc!(c, "udp.debug", format!("{u:?}").len());
-    acc!(c, "udp.to_boxed", u.to_boxed().as_slice().len());
+    accd!(c, "udp.debug", format!("{u:?}").len());
+    accd!(c, "udp.to_boxed", u.to_boxed().as_slice().len());
 }
 pub fn mut_udp(c: &mut Ctx, u: &mut UdpDatagramView, k: usize) -> Option<&'static str> {
     match k {
@@ -415,8 +415,8 @@ pub fn mut_udp(c: &mut Ctx, u: &mut UdpDatagramView, k: usize) -> Option<&'stati
 pub fn acc_scmp_msg(c: &mut Ctx, m: ScmpMessageView) {
     acc!(c, "scmpmsg.is_error", m.is_error());
     acc!(c, "scmpmsg.is_informational", m.is_informational());
-    acc!(c, "scmpmsg.to_model", m.to_model());
-    acc!(c, "scmpmsg.debug", format!("{m:?}").len());
+    accd!(c, "scmpmsg.to_model", m.to_model());
+    accd!(c, "scmpmsg.debug", format!("{m:?}").len());
     match m {
         ScmpMessageView::DestinationUnreachable(v) => {
             acc!(c, "du.message_type", v.message_type());
@@ -516,8 +516,8 @@ pub fn acc_scmp(c: &mut Ctx, s: &ScmpPayloadView) {
     acc!(c, "scmp.code", s.code());
     acc!(c, "scmp.checksum", s.checksum());
     acc!(c, "scmp.dst_port", s.dst_port());
-    acc!(c, "scmp.debug", format!("{s:?}").len());
-    acc!(c, "scmp.to_boxed", s.to_boxed().as_slice().len());
+    accd!(c, "scmp.debug", format!("{s:?}").len());
+    accd!(c, "scmp.to_boxed", s.to_boxed().as_slice().len());
     if c.at("scmp.message") {
         match vpc::catch(|| s.message()) {
             Ok(m) => acc_scmp_msg(c, m),
@@ -652,10 +652,10 @@ pub fn acc_udppkt(c: &mut Ctx, p: &ScionUdpPacketView, full: bool) {
     }
     acc!(c, "udppkt.src_socket_addr", p.src_socket_addr());
     acc!(c, "udppkt.dst_socket_addr", p.dst_socket_addr());
-    acc!(c, "udppkt.debug", format!("{p:?}").len());
+    accd!(c, "udppkt.debug", format!("{p:?}").len());
     if full {
-        acc!(c, "udppkt.to_boxed.into_raw", p.to_boxed().into_raw().as_slice().len());
-        acc!(c, "udppkt.try_to_model", { use sciparse::core::convert::TryToModel; p.try_to_model() });
+        accd!(c, "udppkt.to_boxed.into_raw", p.to_boxed().into_raw().as_slice().len());
+        accd!(c, "udppkt.try_to_model", { use sciparse::core::convert::TryToModel; p.try_to_model() });
     }
 }
 pub fn acc_scmppkt(c: &mut Ctx, p: &ScionScmpPacketView, full: bool) {
@@ -671,16 +671,16 @@ pub fn acc_scmppkt(c: &mut Ctx, p: &ScionScmpPacketView, full: bool) {
             Err(e) => c.panicked("scmppkt.scmp", e),
         }
     }
-    acc!(c, "scmppkt.debug", format!("{p:?}").len());
+    accd!(c, "scmppkt.debug", format!("{p:?}").len());
     if full {
-        acc!(c, "scmppkt.to_boxed.into_raw", p.to_boxed().into_raw().as_slice().len());
-        acc!(c, "scmppkt.try_to_model", { use sciparse::core::convert::TryToModel; p.try_to_model() });
+        accd!(c, "scmppkt.to_boxed.into_raw", p.to_boxed().into_raw().as_slice().len());
+        accd!(c, "scmppkt.try_to_model", { use sciparse::core::convert::TryToModel; p.try_to_model() });
     }
 }
 pub fn acc_raw(c: &mut Ctx, p: &ScionRawPacketView, full: bool) {
     accs!(c, "raw.as_slice", p.as_slice());
     acc_pkt_common(c, p, full);
-    acc!(c, "raw.debug", format!("{p:?}").len());
+    accd!(c, "raw.debug", format!("{p:?}").len());
     if c.at("raw.try_classify") {
         match vpc::catch(|| p.try_classify()) {
             Ok(Ok(cl)) => {
@@ -688,7 +688,7 @@ pub fn acc_raw(c: &mut Ctx, p: &ScionRawPacketView, full: bool) {
                 acc!(c, "classified.dst_port", cl.dst_port());
                 acc!(c, "classified.is_*", (cl.is_udp(), cl.is_scmp(), cl.is_other()));
                 accs!(c, "classified.as_raw", cl.as_raw().as_slice());
-                acc!(c, "classified.debug", format!("{cl:?}").len());
+                accd!(c, "classified.debug", format!("{cl:?}").len());
             }
             Ok(Err(_)) => {}
             Err(e) => c.panicked("raw.try_classify", e),
@@ -719,10 +719,10 @@ pub fn acc_raw(c: &mut Ctx, p: &ScionRawPacketView, full: bool) {
         }
     }
     if full {
-        acc!(c, "raw.to_boxed.try_into_udp", p.to_boxed().try_into_udp().map(|b| b.as_slice().len()));
-        acc!(c, "raw.to_boxed.try_into_scmp", p.to_boxed().try_into_scmp().map(|b| b.as_slice().len()));
-        acc!(c, "raw.try_to_model", { use sciparse::core::convert::TryToModel; p.try_to_model() });
-        acc!(c, "raw.copy_to_slice", { let mut b = vec![0u8; p.as_slice().len() + 3]; p.copy_to_slice(&mut b).map(|(v, r)| (v.as_slice().len(), r.len())) });
+        accd!(c, "raw.to_boxed.try_into_udp", p.to_boxed().try_into_udp().map(|b| b.as_slice().len()));
+        accd!(c, "raw.to_boxed.try_into_scmp", p.to_boxed().try_into_scmp().map(|b| b.as_slice().len()));
+        accd!(c, "raw.try_to_model", { use sciparse::core::convert::TryToModel; p.try_to_model() });
+        accd!(c, "raw.copy_to_slice", { let mut b = vec![0u8; p.as_slice().len() + 3]; p.copy_to_slice(&mut b).map(|(v, r)| (v.as_slice().len(), r.len())) });
     }
 }
 pub fn accm_raw(c: &mut Ctx, p: &mut ScionRawPacketView) {
